@@ -197,3 +197,29 @@ Definition keep_source_cell (h : heap) (s : st) (l : loc) : heap :=
   | Some c => update (out s) (app_memo (memo s) l) c
   | None => out s
   end.
+
+(* ---- what the copy of an object keeps literally: the names and order of its properties,
+   their attribute modes, class, extensibility, and the whole parameter-name table of an
+   arguments object (entries blanked by `delete arguments[i]` included, wherever they are) ---- *)
+Definition prop_mode (p : prop) : Z := match p with PData _ m => m | PAcc _ _ m => m end.
+Definition args_table (p : payload) : option (list Z) :=
+  match p with PArgs _ names => Some names | _ => None end.
+
+Theorem clone_keeps_shape : forall h fuel roots n0 s l o,
+  clone_roots h fuel roots n0 = Ok s -> In l (keys (memo s)) -> lookup h l = Some (CObj o) ->
+  exists o', lookup (out s) (app_memo (memo s) l) = Some (CObj o') /\
+    map fst (o_props o') = map fst (o_props o) /\
+    map (fun np => prop_mode (snd np)) (o_props o') = map (fun np => prop_mode (snd np)) (o_props o) /\
+    o_class o' = o_class o /\ o_ext o' = o_ext o /\
+    args_table (o_pay o') = args_table (o_pay o).
+Proof.
+  intros h fuel roots n0 s l o H Hl Hc.
+  destruct (clone_roots_iso _ _ _ _ _ H) as ((NDk & NDv & Hiso) & _).
+  destruct (Hiso _ _ (Proofs.app_memo_vals _ _ Hl)) as (c & Hc' & _ & Hout).
+  rewrite Hc in Hc'. inversion Hc'; subst c.
+  exists (map_obj (app_memo (memo s)) o). split; [exact Hout|].
+  destruct o as [pr ps cl ex pay]. unfold map_obj, o_props, o_class, o_ext, o_pay.
+  split; [rewrite map_map; apply map_ext; now intros [n p]|].
+  split; [rewrite map_map; apply map_ext; intros [n p]; now destruct p|].
+  split; [reflexivity|]. split; [reflexivity|]. now destruct pay.
+Qed.
